@@ -128,6 +128,18 @@ def run_c06(rep, tier, seed):
             impl_lines.append(f"c.close {cid}")
             cases.append(("pipeline", start, len(impl_lines) - start, len(model_lines), reqs, expected))
             model_lines.append(f"serve {data.hex()}")
+    # large replies against a client that does not read for a while (the socket buffer fills; a reply must still arrive whole)
+    big_checks = []
+    for (nbytes, ngets) in ([(3000000, 4)] if tier == "quick" else [(300000, 40), (3000000, 6), (12000000, 2)]):
+        byte = rng.getrandbits(8)
+        cid = f"big{nbytes}"
+        st_ = len(impl_lines)
+        impl_lines += [f"c.open {cid}", f"c.sendbig {cid} 626967 {byte:02x} {nbytes}", f"c.read {cid} 1 30000",
+                       f"c.send {cid} " + (req_bytes(("GET", b"big")) * ngets + req_bytes(("GET", b"k"))).hex(), "sleep 400", f"c.read {cid} {ngets + 1} 60000", f"c.close {cid}"]
+        from p_store import fnv64
+        big_checks.append((st_, ngets, "B:#%d:%016x" % (nbytes, fnv64(bytes([byte]) * nbytes))))
+        m[b"big"] = bytes([byte]) * nbytes
+        model_lines.append(f"kv.set 626967 {byte:02x}*{nbytes}")
     # final store contents through a direct handle
     fin = len(impl_lines)
     for k in NKEYS:
@@ -193,6 +205,14 @@ def run_c06(rep, tier, seed):
                 viol("oracle", "replies on a pipelined connection differ from the key-value map's", impl_lines[st:st + n], ";".join(exp), ";".join(got))
             elif mout[0] != hx(expected):
                 viol("correspondence", "model and server disagree on the reply stream", impl_lines[st:st + n], hx(expected), model[mi])
+    for (st_, ngets, tok) in big_checks:
+        if st_ + 5 < len(impl):
+            rep.count("large_reply_cases")
+            exp_small = reply_tokens(apply_req(dict(m), ("GET", b"k")))[0]
+            exp = ";".join([tok] * ngets + [exp_small])
+            if impl[st_ + 2] != "S:4f4b" or impl[st_ + 5] != exp:
+                viol("oracle", "large bulk replies to a slow reader did not arrive whole / in order (reply announced more bytes than were sent, or later replies are mis-framed)",
+                     [x[:120] for x in impl_lines[st_:st_ + 7]], exp[:300], (impl[st_ + 2] + " / " + impl[st_ + 5])[:300])
     if len(impl) > fin + len(NKEYS) - 1:
         for j, k in enumerate(NKEYS):
             exp = show_val(m.get(k.encode()))
